@@ -89,6 +89,8 @@ class Imputer(_SeriesToSeriesTransformer):
         self.check_is_fitted()
         self._check_method()
         Z = check_series(Z)
+        # columns are overwritten in place below, work on a copy of the input
+        Z = Z.copy()
 
         # replace missing_values with np.nan
         if self.missing_values is not None:
